@@ -121,7 +121,6 @@ Section External.
   Hypothesis R : in_range bw xs.
   Hypothesis L : length xs = nsize shape.
   Hypothesis HL : len = None \/ len = Some (nbytes_bw bw (shape_size shape)).
-  Hypothesis LS : shape_size shape < 2 ^ 53.
 
   Let data := le_pack dt xs.
   Let file := pre ++ data ++ post.
@@ -130,15 +129,15 @@ Section External.
   Proof using H L. unfold data. rewrite (le_pack_length dt bw xs H), (size_of_logical shape xs L). reflexivity. Qed.
 
   Lemma ext_data_nonempty : xs <> [] -> (0 < length data)%nat.
-  Proof using H L LS pre post.
+  Proof using H L pre post.
     intros Hne. unfold data. destruct (le_pack dt xs) eqn:E2.
     - exfalso. apply Hne. apply (le_pack_empty dt bw xs H E2).
     - simpl. lia.
   Qed.
 
   Lemma ext_load_ok off : or0 off = N.of_nat (length pre) -> ext_load dt shape file off = Ok xs.
-  Proof using H R L HL LS.
-    intros Hoff. unfold ext_load. rewrite H, (nbytes_code_exact bw _ LS), <- L.
+  Proof using H R L HL.
+    intros Hoff. unfold ext_load. rewrite H, (nbytes_code_exact bw _), <- L.
     destruct (nil_or_not xs) as [E | Hne]; [rewrite E; reflexivity|].
     assert (Lx : (0 < length xs)%nat) by (destruct xs; [contradiction Hne; reflexivity | simpl; lia]).
     pose proof (ext_data_nonempty Hne) as Ld. pose proof ext_data_len as Dl.
@@ -168,8 +167,8 @@ Section External.
   Qed.
 
   Lemma ext_tobytes_ok off : or0 off = N.of_nat (length pre) -> ext_tobytes dt shape file off len = Ok data.
-  Proof using H R L HL LS.
-    intros Hoff. unfold ext_tobytes. rewrite H, (nbytes_code_exact bw _ LS), <- L.
+  Proof using H R L HL.
+    intros Hoff. unfold ext_tobytes. rewrite H, (nbytes_code_exact bw _), <- L.
     destruct (nil_or_not xs) as [E | Hne].
     - unfold data. rewrite E, le_pack_nil. reflexivity.
     - assert (Lx : (0 < length xs)%nat) by (destruct xs; [contradiction Hne; reflexivity | simpl; lia]).
@@ -181,8 +180,8 @@ Section External.
 
   Lemma ext_tofile_ok off env d : or0 off = N.of_nat (length pre) -> 0 < e_chunk env ->
     ext_tofile env dt shape file off len d = Ok (write d data).
-  Proof using H R L HL LS.
-    intros Hoff Hc. unfold ext_tofile. rewrite H, (nbytes_code_exact bw _ LS).
+  Proof using H R L HL.
+    intros Hoff Hc. unfold ext_tofile. rewrite H, (nbytes_code_exact bw _).
     rewrite (or_else_nbytes len _ HL), <- ext_data_len, Hoff, Nat2N.id.
     assert (Es : skipn (length pre) file = data ++ post).
     { unfold file. rewrite skipn_app, Nat.sub_diag, skipn_all, skipn_O. reflexivity. }
@@ -208,13 +207,13 @@ Proof. intros Ha Hb. rewrite Ha in Hb. inversion Hb. reflexivity. Qed.
 Lemma numpy_bytes_agree dt shape xs r :
   logical dt shape xs -> represents dt shape xs r -> good_numpy dt xs r /\ good_bytes dt xs r.
 Proof.
-  intros [bw [H [R [L LS]]]] HR.
+  intros [bw [H [R L]]] HR.
   induction HR as [store E | bw' H' Hb | bw' H' Hb | | bw' es H' M C | es M C | bw' es H' M C F | M | M
                    | pre post len bw' H' HL | post len bw' H' HL | inner HR IH];
     try (pose proof (same_bw dt bw' bw H' H); subst bw').
   - subst xs. apply (array_good dt shape bw store H).
   - apply (torch_good dt shape bw xs H Hb).
-  - apply (packed_good dt shape bw xs H Hb R L LS).
+  - apply (packed_good dt shape bw xs H Hb R L).
   - apply (proto_raw_good dt shape bw xs H R L).
   - apply (proto_int32_good dt shape bw xs es H R L M C).
   - apply (proto_int64_good dt shape bw xs es H R L M C).
@@ -223,14 +222,14 @@ Proof.
   - apply (proto_double_good dt shape bw xs H R L M).
   - split.
     + exists xs. split; [| apply (elem_id dt bw xs H R)]. cbn [r_numpy].
-      apply (ext_load_ok dt bw shape xs pre post len H R L HL LS). cbn. reflexivity.
+      apply (ext_load_ok dt bw shape xs pre post len H R L HL). cbn. reflexivity.
     + unfold good_bytes. cbn [r_tobytes].
-      apply (ext_tobytes_ok dt bw shape xs pre post len H R L HL LS). cbn. reflexivity.
+      apply (ext_tobytes_ok dt bw shape xs pre post len H R L HL). cbn. reflexivity.
   - split.
     + exists xs. split; [| apply (elem_id dt bw xs H R)]. cbn [r_numpy].
-      apply (ext_load_ok dt bw shape xs [] post len H R L HL LS). reflexivity.
+      apply (ext_load_ok dt bw shape xs [] post len H R L HL). reflexivity.
     + unfold good_bytes. cbn [r_tobytes].
-      apply (ext_tobytes_ok dt bw shape xs [] post len H R L HL LS). reflexivity.
+      apply (ext_tobytes_ok dt bw shape xs [] post len H R L HL). reflexivity.
   - destruct IH as [[st [N1 N2]] B]. split; [exists st; split; assumption | exact B].
 Qed.
 
@@ -238,14 +237,14 @@ Lemma tofile_agree dt shape xs r :
   logical dt shape xs -> represents dt shape xs r ->
   forall env d, 0 < e_chunk env -> r_tofile env r d = Ok (write d (le_pack dt xs)).
 Proof.
-  intros HLg HR env d Hc. pose proof HLg as [bw [H [R [L LS]]]].
+  intros HLg HR env d Hc. pose proof HLg as [bw [H [R L]]].
   induction HR as [store E | bw' H' Hb | bw' H' Hb | | bw' es H' M C | es M C | bw' es H' M C F | M | M
                    | pre post len bw' H' HL | post len bw' H' HL | inner HR IH];
     try (pose proof (same_bw dt bw' bw H' H); subst bw').
   10: { cbn [r_tofile].
-        apply (ext_tofile_ok dt bw shape xs pre post len H R L HL LS); [cbn; reflexivity | exact Hc]. }
+        apply (ext_tofile_ok dt bw shape xs pre post len H R L HL); [cbn; reflexivity | exact Hc]. }
   10: { cbn [r_tofile].
-        apply (ext_tofile_ok dt bw shape xs [] post len H R L HL LS); [reflexivity | exact Hc]. }
+        apply (ext_tofile_ok dt bw shape xs [] post len H R L HL); [reflexivity | exact Hc]. }
   10: { cbn [r_tofile]. exact IH. }
   all: match goal with |- r_tofile _ ?r _ = _ =>
          assert (HR' : represents dt shape xs r) by (econstructor; eassumption);
@@ -258,8 +257,8 @@ Lemma nbytes_agree dt shape xs r :
   logical dt shape xs -> represents dt shape xs r ->
   r_nbytes r = Ok (N.of_nat (length (le_pack dt xs))).
 Proof.
-  intros [bw [H [R [L LS]]]] HR. destruct (represents_meta dt shape xs r HR) as [Ed Es].
-  unfold r_nbytes. rewrite Ed, Es, H, (nbytes_code_exact bw _ LS), (le_pack_length dt bw xs H), (size_of_logical shape xs L). reflexivity.
+  intros [bw [H [R L]]] HR. destruct (represents_meta dt shape xs r HR) as [Ed Es].
+  unfold r_nbytes. rewrite Ed, Es, H, (nbytes_code_exact bw _), (le_pack_length dt bw xs H), (size_of_logical shape xs L). reflexivity.
 Qed.
 
 (* serialization: a representation of the data serializes to a representation of the same data *)
@@ -291,10 +290,10 @@ Proof.
   destruct x; [contradiction Hl; reflexivity|]. simpl. rewrite rev_involutive. reflexivity.
 Qed.
 
-Lemma string_reps_agree shape ss :
+Lemma string_reps_agree_before_fix shape ss :
   Forall (fun s => last s 1 <> 0) ss ->
   forall r, In r [SList shape ss; SObjArray shape ss; SBytesArray shape ss; SProto shape ss] ->
-  s_numpy r = ss /\ s_string_data r = ss.
+  s_numpy_before_fix r = ss /\ s_string_data r = ss.
 Proof.
   intros F.
   assert (E : map np_bytes_elem ss = ss).
@@ -304,8 +303,8 @@ Qed.
 
 (* the values numpy() returns drop trailing NUL bytes for list/proto backed string tensors, so an element
    ending in NUL is NOT reproduced (while an object-array backed tensor keeps it) *)
-Lemma string_trailing_nul_refuted :
-  exists shape ss, s_numpy (SList shape ss) <> s_numpy (SObjArray shape ss)
+Lemma string_trailing_nul_refuted_before_fix :
+  exists shape ss, s_numpy_before_fix (SList shape ss) <> s_numpy_before_fix (SObjArray shape ss)
                    /\ s_string_data (SList shape ss) = s_string_data (SObjArray shape ss).
 Proof. exists [1], [[97; 0]]. split; [vm_compute; discriminate | reflexivity]. Qed.
 
@@ -316,7 +315,7 @@ Lemma nbytes_full dt shape xs r :
   exists bw bs, bitwidth dt = Some bw /\ r_tobytes r = Ok bs /\
     r_nbytes r = Ok (N.of_nat (length bs)) /\ N.of_nat (length bs) = ceil_div (shape_size shape * bw) 8.
 Proof.
-  intros HL HR. pose proof HL as [bw [H [R [L LS]]]].
+  intros HL HR. pose proof HL as [bw [H [R L]]].
   destruct (numpy_bytes_agree dt shape xs r HL HR) as [_ B].
   exists bw, (le_pack dt xs). repeat split; [exact H | exact B | apply (nbytes_agree dt shape xs r HL HR) |].
   rewrite (le_pack_length dt bw xs H), (size_of_logical shape xs L). reflexivity.
@@ -357,7 +356,7 @@ Qed.
 
 (* examples: the hypotheses are satisfiable by non-trivial data (the witnesses of the three repaired defects) *)
 Example ex_logical_uint2 : logical DT_UINT2 [5] [0; 1; 2; 3; 1].
-Proof. exists 2. split; [reflexivity|]. split; [repeat constructor | split; reflexivity]. Qed.
+Proof. exists 2. split; [reflexivity|]. split; [repeat constructor | reflexivity]. Qed.
 Example ex_packed_uint2 : represents DT_UINT2 [5] [0; 1; 2; 3; 1] (RPacked DT_UINT2 [5] [228; 1]).
 Proof. apply (rep_packed DT_UINT2 [5] [0; 1; 2; 3; 1] 2); [reflexivity | reflexivity]. Qed.
 Example ex_external_uint2_eof :
@@ -370,25 +369,24 @@ Example ex_int4_odd_int32 :
      p_int32 := [33%Z; 13%Z]; p_int64 := []; p_double := []; p_uint64 := [] |}).
 Proof. apply (rep_proto_int32 DT_INT4 [3] [1; 2; 13] 4 [33%Z; 13%Z]); reflexivity. Qed.
 
-(* ------------------------------------------------------------------ nbytes in float arithmetic *)
+(* ------------------------------------------------------------------ nbytes arithmetic *)
 
-Lemma nbytes_float_exact bw size : size < 2 ^ 53 -> nbytes_code bw size = ceil_div (size * bw) 8.
-Proof. intros H. rewrite (nbytes_code_exact bw size H). reflexivity. Qed.
+Lemma nbytes_exact bw size : nbytes_code bw size = ceil_div (size * bw) 8.
+Proof. rewrite nbytes_code_exact. reflexivity. Qed.
 
-Lemma nbytes_float_refuted :
-  exists dt bw size, bitwidth dt = Some bw /\ nbytes_code bw size <> ceil_div (size * bw) 8.
+Lemma nbytes_float_refuted_before_fix :
+  exists dt bw size, bitwidth dt = Some bw /\ nbytes_float_before_fix bw size <> ceil_div (size * bw) 8.
 Proof. exists DT_INT4, 4, (2 ^ 53 + 1). split; [reflexivity | vm_compute; discriminate]. Qed.
 
-(* whole-byte dtypes: the float result is the exact byte count of the ROUNDED size, so it can be off by many bytes *)
-Example ex_nbytes_float_uint8 : nbytes_code 8 (2 ^ 53 + 1) = 2 ^ 53.
+Example ex_nbytes_float_uint8 : nbytes_float_before_fix 8 (2 ^ 53 + 1) = 2 ^ 53.
 Proof. vm_compute. reflexivity. Qed.
 
-(* ------------------------------------------------------------------ strings after the proposed repair *)
+(* ------------------------------------------------------------------ strings (full statement, after fix 5633eae) *)
 
-Lemma strings_agree_fixed shape ss :
+Lemma strings_agree shape ss :
   (forall r, In r [SList shape ss; SObjArray shape ss; SProto shape ss] ->
-     s_numpy_fixed r = ss /\ s_string_data r = ss)
-  /\ s_numpy_fixed (SBytesArray shape ss) = s_string_data (SBytesArray shape ss).
+     s_numpy r = ss /\ s_string_data r = ss)
+  /\ s_numpy (SBytesArray shape ss) = s_string_data (SBytesArray shape ss).
 Proof.
   split; [| reflexivity]. intros r Hr. simpl in Hr.
   destruct Hr as [<-|[<-|[<-|[]]]]; split; reflexivity.
